@@ -137,6 +137,12 @@ def gen_case(rng, large=False):
         opts += ["--rename", "{id} {adapter_name} {match_sequence}"] if not paired else ["--rename", "{id} {r1.adapter_name}"]
     outs = []
     demux = rng.random() < 0.3
+    if demux and rng.random() < 0.25:
+        # an adapter named like the file for reads without adapter: the two groups share one output file
+        a = ads1[0]
+        a["argv"] = [a["flag"], a["argv"][1].replace(a["name"] + "=", "unknown=", 1)]
+        a["name"] = "unknown"
+        opts = [x for a_ in ads1 + ads2 for x in a_["argv"]] + opts[2 * len(ads1 + ads2):]
     fasta = rng.random() < 0.15
     ext = rng.choice([".fastq", ".fq", ".fastq.gz", ".fq.bz2"]) if not fasta else rng.choice([".fasta", ".fa.gz"])
     if rng.random() < 0.5:
